@@ -109,4 +109,5 @@ func TestC05(t *testing.T) {
 
 	rapidProp(t, st, "node-walks", perShard(pick(400, 20000)), 7, c05GenWalk, func(w c05Walk) *viol { return c05RunWalk(t, st, w) })
 	rapidProp(t, st, "wide-walks", perShard(pick(600, 30000)), 11, c05GenWide, func(w c05Walk) *viol { return c05RunWide(st, w) })
+	rapidProp(t, st, "state-faults", perShard(pick(1600, 20000)), 31, sfGen, func(p sfPlan) *viol { return sfRun(t, st, p) })
 }
